@@ -336,6 +336,7 @@ func (l *Linter) LintFiles(filepaths []string, project *Project) ([]*Error, erro
 		path string
 		errs []*Error
 		src  []byte
+		err  error
 	}
 
 	ws := make([]workspace, 0, len(filepaths))
@@ -369,7 +370,8 @@ func (l *Linter) LintFiles(filepaths []string, project *Project) ([]*Error, erro
 			src, err := os.ReadFile(w.path)
 			sema.Release(1)
 			if err != nil {
-				return fmt.Errorf("could not read %q: %w", w.path, err)
+				w.err = fmt.Errorf("could not read %q: %w", w.path, err)
+				return w.err
 			}
 
 			if cwd != "" {
@@ -379,7 +381,8 @@ func (l *Linter) LintFiles(filepaths []string, project *Project) ([]*Error, erro
 			}
 			errs, err := l.check(w.path, src, proj, proc, ac, rwc)
 			if err != nil {
-				return fmt.Errorf("fatal error while checking %s: %w", w.path, err)
+				w.err = fmt.Errorf("fatal error while checking %s: %w", w.path, err)
+				return w.err
 			}
 			w.src = src
 			w.errs = errs
@@ -389,6 +392,13 @@ func (l *Linter) LintFiles(filepaths []string, project *Project) ([]*Error, erro
 
 	if err := eg.Wait(); err != nil {
 		proc.wait() // Ensure that all processes finish also when returning the error
+		// errgroup gives the error of the goroutine which failed first. When two or more files fail,
+		// return the error of the first one in the order of the arguments
+		for i := range ws {
+			if ws[i].err != nil {
+				return nil, ws[i].err
+			}
+		}
 		return nil, err
 	}
 
